@@ -388,7 +388,7 @@ func runC10(env *lib.Env, rep *lib.Report) {
 		}
 	}
 	vals := []any{cr("", "a"), cr("t", "b"), int64(1), "x"}
-	valsWide := []any{cr("", "a"), cr("t", "b"), cr("", "select"), int64(0), int64(42), int64(9223372036854775807), "", "x y", "it;s", "SELECT", "\"q\"", "it\\'s", "\\'", "x\\'y\\'z\\'", "back\\\\", true, false}
+	valsWide := []any{cr("", "a"), cr("t", "b"), cr("", "select"), int64(0), int64(42), int64(9223372036854775807), "", "x y", "it;s", "SELECT", "\"q\"", "it\\'s", "\\'", "x\\'y\\'z\\'", "back\\\\", "50\\% off", "C:\\dir\\q", "\\8", true, false}
 	ops := []sql.TokenType{sql.EQ, sql.NEQ, sql.LT, sql.LTE, sql.GT, sql.GTE}
 
 	selectStar := func(g *gen) sql.SelectList {
